@@ -15,7 +15,7 @@
    blocked thread waits for), and the decision on the code is engine L's (probes on every blocking
    edge; a thread that does not arrive where the model says it can run is reported with its
    schedule) plus the C13 monitor. *)
-From RS Require Import Base Channel Pipeline Script World Instance Hist WorldBlock WorldLive Witness.
+From RS Require Import Base Channel Pipeline Script World Instance Hist WorldBlock WorldLive WorldLocks Witness.
 
 Section C13.
 Context {State : Type}.
@@ -68,6 +68,15 @@ Theorem C13_core_deadlock_free : forall reducers mws progs w,
 Proof.
   intros reducers mws progs w C L F R B. exact (core_deadlock_free cfg C reducers mws progs w L F R B).
 Qed.
+
+(* the locks of the model are locks: in every reachable world the dispatch lock and the
+   subscribers lock are each held by at most one thread *)
+Theorem C13_locks_exclusive : forall reducers mws progs w, reachable cfg reducers mws progs w ->
+  (forall t1 t2 th1 th2, get_thread (w_threads w) t1 = Some th1 -> get_thread (w_threads w) t2 = Some th2 ->
+     holds_tx th1 = true -> holds_tx th2 = true -> t1 = t2) /\
+  (forall t1 t2 th1 th2, get_thread (w_threads w) t1 = Some th1 -> get_thread (w_threads w) t2 = Some th2 ->
+     holds_subs th1 = true -> holds_subs th2 = true -> t1 = t2).
+Proof. intros reducers mws progs w R. exact (reachable_locks cfg reducers mws progs w R). Qed.
 End C13.
 
 (* the known finding: a reachable world of the instantiated model in which thread 0 is parked
@@ -83,4 +92,5 @@ Proof. exact Witness.C13_iter_drop_refuted. Qed.
 Print Assumptions C13_wait_for_edges_partial.
 Print Assumptions C13_never_waits.
 Print Assumptions C13_core_deadlock_free.
+Print Assumptions C13_locks_exclusive.
 Print Assumptions C13_iter_drop_refuted.
